@@ -13,8 +13,8 @@
 EXTENDS DiagPos, Json
 CONSTANTS Family, Tier
 
-VARIABLES job
-vars == <<job>>
+VARIABLES job, r
+vars == <<job, r>>
 Q == Tier = "quick"
 
 Opts == {[x |-> 0, n |-> FALSE, gnu |-> FALSE, e |-> "stderr"], [x |-> 1, n |-> TRUE, gnu |-> FALSE, e |-> "file"],
@@ -28,16 +28,17 @@ NumsA == {1200, 1110, 1320, 60}
 OccO == {"F1200", "F1110", "F1320", "W60"}
 SeqsLE(S, n) == UNION {[1..k -> S] : k \in 0..n}
 
-J(tag, files, opt) == [tag |-> tag, files |-> files, opt |-> opt]
 Programs ==
   CASE Family = "main" ->       \* nesting <= 3 in the main file, after continuation lines
-         {[tag |-> <<"main", ks, pre, cont, f>>, files |-> MainProg(ks, pre, 2, cont, f)] :
-            ks \in KindSeqs(IF Q THEN 2 ELSE 3), pre \in 0..1, cont \in (IF Q THEN {0, 2} ELSE 0..2), f \in (IF Q THEN {"F1200", "W60"} ELSE Faults)}
-         \cup {[tag |-> <<"main3", ks, 1, 1, "F1200">>, files |-> MainProg(ks, 1, 2, 1, "F1200")] : ks \in [1..3 -> Kinds]}
-         \cup {[tag |-> <<"mainf", <<k>>, 0, 0, f>>, files |-> MainProg(<<k>>, 0, 1, 0, f)] : k \in Kinds, f \in Faults}
+         {[tag |-> <<"main", ks, pp, cont, f>>, files |-> MainProg(ks, pp[1], pp[2], 2, cont, f)] :
+            ks \in KindSeqs(IF Q THEN 2 ELSE 3), pp \in {<<0, 0>>, <<1, 0>>, <<0, 1>>} \cup (IF Q THEN {} ELSE {<<1, 1>>}),
+            cont \in (IF Q THEN {0, 2} ELSE 0..2), f \in (IF Q THEN {"F1200"} ELSE Faults)}
+         \cup {[tag |-> <<"main3", ks, pp, 1, "F1200">>, files |-> MainProg(ks, pp[1], pp[2], 2, 1, "F1200")] :
+                 ks \in [1..3 -> Kinds], pp \in {<<1, 0>>, <<0, 1>>}}
+         \cup {[tag |-> <<"mainf", <<k>>, <<0, po>>, 0, f>>, files |-> MainProg(<<k>>, 0, po, 1, 0, f)] : k \in Kinds, f \in Faults, po \in 0..1}
     [] Family = "incl" ->       \* nested includes, depth <= 3
-         {[tag |-> <<"incl", dep, ks, cont, f>>, files |-> InclFault(dep, ks, 1, cont, f)] :
-            dep \in 1..3, ks \in KindSeqs(1), cont \in {0, 1}, f \in (IF Q THEN {"F1200", "F1010"} ELSE Faults)}
+         {[tag |-> <<"incl", dep, ks, po, cont, f>>, files |-> InclFault(dep, ks, 1, po, cont, f)] :
+            dep \in 1..3, ks \in KindSeqs(1), po \in 0..1, cont \in {0, 1}, f \in (IF Q THEN {"F1200", "F1010"} ELSE Faults)}
          \cup {[tag |-> <<"inclin", k, f>>, files |-> InclInside(k, f)] : k \in Kinds, f \in {"F1200"}}
     [] Family = "expect" ->     \* all announcements of <= 3 numbers x <= 3 occurring messages
          {[tag |-> <<"expect", A, O, c, nst>>, files |-> ExpectProg(A, O, c, nst)] :
@@ -47,37 +48,44 @@ Programs ==
          \cup {[tag |-> <<"expectmac", A, O>>, files |-> ExpectInMacro(A, O)] : A \in {<<1200>>, <<1200, 1110>>}, O \in SeqsLE({"F1200", "F1110"}, 2)}
          \cup {[tag |-> <<"expect0">>, files |-> [f \in {"a.asm"} |-> <<L(<<>>, "EXPECT", <<>>), L(<<>>, "ENDEXPECT", <<>>), L(<<>>, "ENDEXPECT", N(1))>>]]}
     [] OTHER -> {}
-Jobs == {J(p.tag, p.files, o) : p \in Programs, o \in OptsFor(Family = "expect")}
+Jobs == Programs
 
-M == RunMachine(job.files, <<>>, "a.asm")
-D == ExpandDecl(job.files, <<>>, "a.asm")
+\* the two runs are made once per job (Init) and kept in r
+Compute(files) ==
+  LET m == RunMachine(files, <<>>, "a.asm")
+      d == ExpandDecl(files, <<>>, "a.asm")
+  IN [delivered |-> m.delivered, errs |-> m.errs, devs |-> m.devs, pdevs |-> m.pdevs, raw |-> d.raw, indef |-> d.indef,
+      mout |-> AllDiags(m.delivered), dout |-> AllDiags(d.raw), mout1 |-> PassDiags(m.delivered, 1)]
+M == r
+D == r
 Stm(flat) == SelectSeq(flat, LAMBDA e : OpOf(e.l) # "")            \* label-only entries are not statements
 
 \* --- properties --------------------------------------------------------------------------------------------
 Definite == ~D.indef /\ M.errs = 0 /\ (Fixed = DevNames \/ (M.devs = {} /\ M.pdevs = {}))
 NoExpect(flat) == \A i \in DOMAIN flat : OpOf(flat[i].l) \notin {"EXPECT", "ENDEXPECT"}
-FaultPositions(flat, pass) == [k \in DOMAIN SelectSeq(flat, LAMBDA e : Raises(e, pass)) |-> SelectSeq(flat, LAMBDA e : Raises(e, pass))[k].pos]
+FaultPositions(flat, pass) == LET s == SelectSeq(flat, LAMBDA e : Raises(e, pass)) IN [k \in DOMAIN s |-> s[k].pos]
 
 \* what the machine reports (positions read from the tag chain) is where the text puts the faulty statements
 PositionIsPlanted ==
-  (Definite /\ NoExpect(D.raw)) =>
-     LET out == AllDiags(M.delivered)
+  (r # <<>> /\ Definite /\ NoExpect(D.raw)) =>
+     LET out == M.mout
          p1 == FaultPositions(D.raw, 1)
          two == ~(\E i \in DOMAIN D.raw : Raises(D.raw[i], 1) /\ FaultNum(OpOf(D.raw[i].l)) >= 1000) /\ NeedsPass2(D.raw)
          want == IF two THEN p1 \o FaultPositions(D.raw, 2) ELSE p1
      IN [k \in DOMAIN out |-> out[k].pos] = want
 NoCleanLineNamed ==
-  Definite => \A k \in DOMAIN AllDiags(M.delivered) :
-                 LET d == AllDiags(M.delivered)[k]
+  (r # <<>> /\ Definite) => \A k \in DOMAIN M.mout :
+                 LET d == M.mout[k]
                  IN d.pos = Internal \/ \A i \in DOMAIN D.raw :
                       (D.raw[i].pos = d.pos /\ OpOf(D.raw[i].l) # "") => OpOf(D.raw[i].l) \in FaultOps \cup {"EXPECT", "ENDEXPECT"}
 PositionsIdentify ==
-  ~D.indef => LET s == Stm(D.raw) IN \A i, j \in DOMAIN s : i # j => s[i].pos # s[j].pos
+  (r # <<>> /\ ~D.indef) => LET s == Stm(D.raw)        \* (a file read from inside a construct is named alone: excluded)
+                            IN \A i, j \in DOMAIN s : (i # j /\ Len(s[i].pos.gnu) = 1 /\ Len(s[j].pos.gnu) = 1) => s[i].pos # s[j].pos
 ExpectExact ==
-  (Definite /\ WellFormedExpect(D.raw)) => ExpectAccountingOK(M.delivered, 1) /\ ExpectAccountingOK(D.raw, 1)
+  (r # <<>> /\ Definite /\ WellFormedExpect(D.raw)) => ExpectAccountingOK(M.delivered, 1) /\ ExpectAccountingOK(D.raw, 1)
 ExpectProtocol ==
-  Definite =>
-    LET out == PassDiags(M.delivered, 1)
+  (r # <<>> /\ Definite) =>
+    LET out == M.mout1
         f == D.raw
         nestedAt == {i \in DOMAIN f : OpOf(f[i].l) = "EXPECT" /\ ArgsOf(f[i].l) # <<>> /\ Governing(f, i) # 0}
         strayAt == {i \in DOMAIN f : OpOf(f[i].l) = "ENDEXPECT" /\ ArgsOf(f[i].l) = <<>> /\ Governing(f, i) = 0}
@@ -95,11 +103,16 @@ Shown(d, opt) ==
    line |-> IF d.pos = Internal THEN 0 ELSE IF opt.gnu THEN d.pos.gnu[1].b ELSE d.pos.native[1].b,
    chain |-> IF opt.gnu \/ d.pos = Internal THEN <<>> ELSE [i \in 1..(Len(d.pos.native) - 1) |-> El(d.pos.native[i + 1])],
    incl |-> IF ~opt.gnu \/ d.pos = Internal THEN <<>> ELSE [i \in 1..(Len(d.pos.gnu) - 1) |-> [file |-> Str(d.pos.gnu[i + 1].n), line |-> d.pos.gnu[i + 1].b]]]
-Expected(flat, opt) == [k \in DOMAIN AllDiags(flat) |-> Shown(AllDiags(flat)[k], opt)]
-Out == [tag |-> job.tag, opt |-> job.opt, p |-> job.files, indef |-> D.indef \/ M.errs # 0, devs |-> M.devs, pdevs |-> M.pdevs,
-        want |-> Expected(D.raw, job.opt), coded |-> Expected(M.delivered, job.opt)]
+Expected(ds, opt) == [k \in DOMAIN ds |-> Shown(ds[k], opt)]
+OptSeq == LET S == OptsFor(Family = "expect")
+              RECURSIVE Enum(_)
+              Enum(T) == IF T = {} THEN <<>> ELSE LET o == CHOOSE o \in T : TRUE IN <<o>> \o Enum(T \ {o})
+          IN Enum(S)
+Out == [tag |-> job.tag, p |-> job.files, indef |-> r.indef \/ r.errs # 0, devs |-> r.devs, pdevs |-> r.pdevs,
+        runs |-> [i \in DOMAIN OptSeq |-> [opt |-> OptSeq[i], want |-> Expected(r.dout, OptSeq[i]), coded |-> Expected(r.mout, OptSeq[i])]]]
 
-Init == job \in Jobs
-Next == FALSE /\ UNCHANGED vars
-Dump == PrintT(<<"OUT", ToJson(Out)>>)
+\* the runs are made in the only step of a behaviour (so that all TLC workers share the jobs)
+Init == job \in Jobs /\ r = <<>>
+Next == r = <<>> /\ r' = Compute(job.files) /\ UNCHANGED job
+Dump == r # <<>> => PrintT(<<"OUT", ToJson(Out)>>)
 =============================================================================
